@@ -566,6 +566,10 @@ fn c12(r: &Runner) {
             for b in &uv {
                 gcd_case(l, bits, &a, &big(b));
             }
+            // operands related to a (a, !a, -a, a/2, 2a, limb-reversed, ...)
+            for b in related(bits, &uv[i]) {
+                gcd_case(l, bits, &a, &big(&b));
+            }
             // a = b +- 1
             let m = pow2(bits);
             if !a.is_zero() {
